@@ -246,11 +246,24 @@ func (r *reader) Position() (int, Segment) {
 
 func (r *reader) SetPosition(line int, pos Segment) {
 	r.lineOffset = -1
+	r.peekedLine = nil
+	if line != r.line {
+		head := pos.Start
+		if head > r.sourceLength {
+			head = r.sourceLength
+		}
+		for head > 0 && r.source[head-1] != '\n' {
+			head--
+		}
+		r.head = head
+	}
 	r.line = line
 	r.pos = pos
 }
 
 func (r *reader) SetPadding(v int) {
+	r.lineOffset = -1
+	r.peekedLine = nil
 	r.pos.Padding = v
 }
 
